@@ -140,8 +140,10 @@ PANIC_CLASSES = [
     (r"stack overflow|stack exceeds", "stack-overflow"),
 ]
 
-LOOP_OWNER = re.compile(r"(\.Decode$|decodeMap$|decodeListAsMap$|decodeMapAsObject$|decodeObjectAsMap$|ReadStruct$|"
-                        r"readUint8Slice$|decodeArguments$|readObject$|readObjectAsMap$|decodeObject$|\.Decode\.func\d+$)")
+OWNER = re.compile(r"(Decoder\.next$|Decoder\.Next$|readStringAsBytes$|ReadStruct$|readUint8Slice$|decodeArguments$|sliceDecoder\.Decode$|"
+                   r"arrayDecoder\.Decode$|byteArrayDecoder\.Decode$|mapDecoder\.decodeMap$|decodeListAsMap$|decodeObjectAsMap$|"
+                   r"decodeMapAsObject$|listDecoder\.Decode$|readObject$|readObjectAsMap$|decodeObject$|clientCodec\.Decode$|"
+                   r"strConverter$)")
 
 
 def panic_class(msg):
@@ -149,6 +151,10 @@ def panic_class(msg):
         if re.search(pat, msg):
             return cl
     return re.sub(r"[^A-Za-z0-9]+", "-", msg)[:40].strip("-")
+
+
+def norm_owner(f):
+    return {"io.Decoder.Next": "io.Decoder.next", "io.byteArrayDecoder.Decode": "io.arrayDecoder.Decode"}.get(f, f)
 
 
 def fatal_class(err):
@@ -163,10 +169,9 @@ def fatal_class(err):
 
 
 def loop_owner(frames):
-    if frames and frames[0] in ("io.strConverter",):
-        return frames[0]
+    """the function that owns the loop / the allocation: the innermost frame among the known owners"""
     for f in frames or []:
-        if LOOP_OWNER.search(f) and "fastDecode" not in f:
+        if OWNER.search(f):
             return f
     return (frames or ["?"])[0]
 
@@ -197,9 +202,15 @@ def impl_verdict(case, o, crash):
                 return "fatal", "fatal:stack-overflow:io.strConverter", "unbounded recursion (watchdog fired before the stack limit)"
             return "fatal", "hang:" + own, "no result within the watchdog's 4 s"
         if "executor watchdog: memory" in err:
-            return "fatal", "overalloc:" + loop_owner(crash[3] if len(crash) > 3 else []), "heap above 1 GiB"
+            return "fatal", "overalloc:" + norm_owner(loop_owner(crash[3] if len(crash) > 3 else [])), "heap above 1 GiB"
         cl = fatal_class(err)
-        fr = stderr_frames(err)
+        fr = (crash[3] if len(crash) > 3 and crash[3] else stderr_frames(err))
+        if cl == "out-of-memory":
+            return "fatal", "overalloc:" + norm_owner(loop_owner(fr)), "the runtime ran out of memory (fatal error, rc %s)" % rc
+        if cl == "stack-overflow":
+            # the dump elides the middle of a deep stack: name the recursion by the /repo function that starts it
+            own = [f for f in fr if OWNER.search(f)]
+            fr = own[:1] or (["io.strConverter"] if "strConverter" in err else fr)
         if cl == "memory-corruption" and fr and fr[0] == "io.arrayDecoder.Decode":
             return "fatal", "io.arrayDecoder.Decode:out-of-bounds-write", "the executor process died (rc %s): %s" % (rc, err[:160])
         return "fatal", "fatal:%s:%s" % (cl, fr[0] if fr else "?"), "the executor process died (rc %s): %s" % (rc, err[:160])
@@ -213,7 +224,7 @@ def impl_verdict(case, o, crash):
     if o.get("corrupt"):
         return cl, "corrupt-value:" + re.sub(r"[-0-9]+", "N", o["corrupt"]).replace(" ", "-"), "decoded value breaks a Go invariant: " + o["corrupt"]
     if o["alloc"] > K_ALLOC * n + K0_ALLOC:
-        return cl, "overalloc:" + (o.get("alloc_at") or "?"), "TotalAlloc %d for %d input bytes" % (o["alloc"], n)
+        return cl, "overalloc:" + norm_owner(loop_owner([f for f in (o.get("alloc_at") or "").split(";") if f])), "TotalAlloc %d for %d input bytes" % (o["alloc"], n)
     return cl, None, ""
 
 
@@ -301,6 +312,15 @@ def run_impl(cases, max_crashes):
     return obs, cr
 
 
+def _limit_as():
+    # an allocation of tens of GB announced by a dozen bytes must fail at once (fatal "out of memory" with the
+    # stack of the allocating goroutine) instead of being mapped lazily: 6 GiB of address space for the executor
+    try:
+        resource.setrlimit(resource.RLIMIT_AS, (6 << 30, 6 << 30))
+    except Exception:
+        pass
+
+
 def run_impl_frames(cases, max_crashes, max_hangs=8):
     """like run_harness_resilient, but keeps the /repo frames the executor's watchdog printed"""
     import subprocess
@@ -311,7 +331,8 @@ def run_impl_frames(cases, max_crashes, max_hangs=8):
     while todo:
         inp = "".join(json.dumps(c, separators=(",", ":")) + "\n" for c in todo)
         try:
-            p = subprocess.run([exe], input=inp, stdout=subprocess.PIPE, stderr=subprocess.PIPE, text=True, timeout=3000)
+            p = subprocess.run([exe], input=inp, stdout=subprocess.PIPE, stderr=subprocess.PIPE, text=True, timeout=3000,
+                               preexec_fn=_limit_as)
             rc, so, se = p.returncode, p.stdout, p.stderr
         except subprocess.TimeoutExpired:
             rc, so, se = 124, "", "TIMEOUT"
@@ -339,7 +360,7 @@ def run_impl_frames(cases, max_crashes, max_hangs=8):
             crashes[c["id"]] = [c, rc, "fatal error: case exceeded the executor watchdog: " + fatal["fatal"], fatal.get("frames", [])]
             hangs += fatal["fatal"] == "timeout"
         else:
-            crashes[c["id"]] = [c, rc, se[:3000] + " ... " + se[-8000:], []]
+            crashes[c["id"]] = [c, rc, se[:3000] + " ... " + se[-3000:], stderr_frames(se)]
         todo = todo[idx + 1:]
         if len(crashes) >= max_crashes or hangs >= max_hangs:
             for c2 in todo:
